@@ -26,6 +26,7 @@ import (
 	"sync/atomic"
 
 	gerrors "github.com/tochemey/goakt/v4/errors"
+	"github.com/tochemey/goakt/v4/internal/verifhook"
 )
 
 // nbSlot is a single ring-buffer cell. seq gates access so that producers
@@ -110,6 +111,7 @@ func NewNonBlockingBoundedMailbox(capacity int) *NonBlockingBoundedMailbox {
 // Concurrency
 // - Safe for concurrent producers.
 func (m *NonBlockingBoundedMailbox) Enqueue(msg *ReceiveContext) error {
+	verifhook.At("nbr.enq.reserve", m, 0, 0)
 	pos := m.enqueuePos.Load()
 
 	for {
@@ -121,6 +123,7 @@ func (m *NonBlockingBoundedMailbox) Enqueue(msg *ReceiveContext) error {
 		case dif == 0:
 			if m.enqueuePos.CompareAndSwap(pos, pos+1) {
 				cell.ctx = msg
+				verifhook.At("nbr.enq.publish", m, int64(pos), 0)
 				cell.seq.Store(pos + 1)
 				return nil
 			}
@@ -135,6 +138,7 @@ func (m *NonBlockingBoundedMailbox) Enqueue(msg *ReceiveContext) error {
 // Dequeue removes and returns the next message, or nil when the mailbox is
 // empty. FIFO order is preserved. Intended for a single consumer goroutine.
 func (m *NonBlockingBoundedMailbox) Dequeue() (msg *ReceiveContext) {
+	verifhook.At("nbr.deq", m, 0, 0)
 	if m.prev != nil {
 		recycleContext(m.prev)
 		m.prev = nil
@@ -167,6 +171,7 @@ func (m *NonBlockingBoundedMailbox) Dequeue() (msg *ReceiveContext) {
 // IsEmpty reports whether the mailbox currently holds no messages. The result
 // is a racy snapshot and may change immediately under concurrency.
 func (m *NonBlockingBoundedMailbox) IsEmpty() bool {
+	verifhook.At("nbr.isempty", m, 0, 0)
 	return m.Len() == 0
 }
 
